@@ -141,6 +141,7 @@ pub fn generate(g: &mut G, index: u64) -> Scenario {
     }
     let kinds = [HKind::Addr, HKind::Sender, HKind::Caller, HKind::WeakAddr, HKind::WeakSender, HKind::WeakCaller];
     let nclients = g.range(1, 3) as usize;
+    let spec_restartable = spec.restart != Restart::NonRestartable && spec.stream.is_none();
     let mut fam = one_actor(g, spec, nclients, &kinds, (0, 2));
     let mut gifts: Vec<(usize, Slot, HKind)> = vec![];
     let mut progs: Vec<Vec<Op>> = vec![vec![]; nclients];
@@ -171,6 +172,15 @@ pub fn generate(g: &mut G, index: u64) -> Scenario {
     }
     if g.chance(1, 5) {
         progs[0].push(Op::Publish { topic: 1, id: g.id(), path: PublishPath::Static });
+    }
+    // a restart is not a stop: sometimes one is still queued when the last handle goes away
+    if spec_restartable && g.chance(1, 5) {
+        for c in 0..nclients {
+            if let Some(s) = fam.slots[c].of_kind(&[HKind::Addr, HKind::Owning]).first().copied() {
+                progs[c].push(Op::Restart { h: s });
+                break;
+            }
+        }
     }
     // final phase: (mostly) all clients let go of every strong handle, then probe the weak ones
     let all_let_go = g.chance(2, 3);
@@ -292,7 +302,8 @@ pub fn check(v: &View) -> Vec<Violation> {
         if registry_held && cen.max() > 0 {
             crate::log::probe("c05_registry_holder");
         }
-        let stopped_enter = v.cbs_of(a).filter(|c| c.cb == Cb::Stopped).map(|c| c.enter).last();
+        // (the `stopped()` that nothing follows: the one of a restart is not a termination)
+        let stopped_enter = v.cbs_of(a).last().filter(|c| c.cb == Cb::Stopped).map(|c| c.enter);
         let term = stopped_enter.or(a.dead);
         // (i) no termination while a strong handle certainly exists
         if let Some(t) = term {
